@@ -198,24 +198,11 @@ impl IVP for Prob {
             self.times.borrow_mut().push(t);
         }
         if !self.user_jac {
-            // same forward differences as the trait default, but routed through `rhs` so that `count`
-            // keeps counting only the stepper's own evaluations
-            let n = y.len();
-            let mut yp = y.to_vec();
-            let mut f0 = vec![0.0; n];
-            let mut f1 = vec![0.0; n];
-            self.rhs(t, y, &mut f0);
-            let eps = f64::EPSILON.sqrt();
-            for c in 0..n {
-                let yo = y[c];
-                let p = eps * yo.abs().max(1.0);
-                yp[c] = yo + p;
-                self.rhs(t, &yp, &mut f1);
-                yp[c] = yo;
-                for r in 0..n {
-                    j[(r, c)] = (f1[r] - f0[r]) / p;
-                }
-            }
+            // the trait's own default body (src/ivp.rs), run on a view of this problem whose `ode` is the uncounted `rhs`,
+            // so that `count` keeps counting only the stepper's own evaluations
+            struct Uncounted<'a>(&'a Prob);
+            impl<'a> IVP for Uncounted<'a> { fn ode(&self, t: f64, y: &[f64], d: &mut [f64]) { self.0.rhs(t, y, d) } }
+            Uncounted(self).jac(t, y, j);
             return;
         }
         let n0 = self.n0();
